@@ -31,6 +31,16 @@ CHECKS = {
         text="held on the executions produced: thousands of back-to-back rounds per scenario with 1-24 ULT/external waiters "
              "(fast callers lapping slow ones), reinit to other counts, xstream barriers, under delay injection and sanitizers",
         ref="DESIGN.md §5 C08"),
+    "C05": dict(
+        technique="runtime monitoring: wake-credit accounting and holder word under the user mutex, token conservation, "
+                  "scripted queue shapes against a reference queue model under a virtual clock, logical-deadlock supervisor, "
+                  "delay injection, ASan/TSan builds",
+        category="exploration",
+        text="held on the executions produced: closed producer/consumer programs over random configurations with "
+             "ULT/external and timed/untimed waiters (no wake-up without a credit, waiter returns owning the mutex, no lost "
+             "signal = no logical deadlock, tokens conserved) and hundreds of scripted queue shapes where the exact set of "
+             "returning waiters is compared with a reference model after every signal/broadcast/clock step",
+        ref="DESIGN.md §5 C05"),
 }
 
 
